@@ -56,6 +56,7 @@ static double dist_of(double v) { return std::sqrt(v * v + 0.25 * v * v + 0.0625
 struct StepRec {
   long step;
   int run;
+  bool have_e = false;
   std::map<std::string, std::vector<double>> col;  // label -> numbers
 };
 
@@ -79,18 +80,23 @@ struct TrajCase {
   int flags;     // bit0 outputValue d, bit1 outputVelocity d, bit2 outputAppliedForce d, bit3 outputTotalForce d,
                  // bit4 outputEnergy h, bit5 outputCenters h, bit6 outputAccumulatedWork h
   int freq;
-  int split;     // 0 = single run; K>0 = second run starts by repeating engine step K
+  int split;     // 0 = single run; K>0 = a second run starts by repeating engine step K
+  int restart;   // with split>0: 0 = new run in the same process, 1 = fresh module loading the saved state
+  int addcv;     // 0 = never; A>0 = a further variable "e" is defined just before step A
   std::vector<int> word;
   std::string json() const
   {
     std::string w = "[";
     for (size_t i = 0; i < word.size(); i++) w += (i ? "," : "") + std::to_string(word[i]);
     return "{\"part\":\"traj\",\"flags\":" + std::to_string(flags) + ",\"freq\":" + std::to_string(freq) +
-           ",\"split\":" + std::to_string(split) + ",\"word\":" + w + "]}";
+           ",\"split\":" + std::to_string(split) + ",\"restart\":" + std::to_string(restart) + ",\"define_e_before_step\":" +
+           std::to_string(addcv) + ",\"word\":" + w + "]}";
   }
 };
 
 static std::string onoff(bool b) { return b ? "on" : "off"; }
+
+static const char *E_CONF = "colvar {\n name e\n distanceZ {\n main { atomNumbers 2 }\n ref { atomNumbers 1 }\n }\n}\n";
 
 static std::string traj_config(TrajCase const &c)
 {
@@ -103,20 +109,32 @@ static std::string traj_config(TrajCase const &c)
   s += "harmonic {\n name h\n colvars d\n centers 1.0\n forceConstant 2.0\n targetCenters 3.0\n targetNumSteps 4\n outputEnergy " +
        onoff(c.flags & 16) + "\n outputCenters " + onoff(c.flags & 32) + "\n outputAccumulatedWork " + onoff(c.flags & 64) + "\n}\n";
   s += "harmonic {\n name hv\n colvars dv\n centers (1.0, 1.0, 0.0)\n forceConstant 0.5\n outputEnergy on\n}\n";
+  // walls with different constants on the two sides and a growing force constant: energy and work have closed forms
+  s += "harmonicWalls {\n name w\n colvars d\n lowerWalls 1.5\n upperWalls 2.5\n lowerWallConstant 1.0\n upperWallConstant 4.0\n"
+       " targetForceConstant 6.0\n targetNumSteps 4\n outputEnergy on\n outputAccumulatedWork on\n}\n";
   return s;
+}
+
+// textbook energy / dU/dk of bias "w" (manual: half-harmonic beyond each wall; reference constant = geometric mean
+// of the two wall constants = 2, sides scaled by 1/2 and 2; variable width 1)
+static double w_k(long s) { return 2.0 + 4.0 * std::min(1.0, double(s) / 4.0); }
+static double w_dudk(double x)
+{
+  if (x < 1.5) return 0.5 * 0.5 * (x - 1.5) * (x - 1.5);
+  if (x > 2.5) return 0.5 * 2.0 * (x - 2.5) * (x - 2.5);
+  return 0.0;
 }
 
 static void check_traj_case(TrajCase const &c, Result &r, std::string const &prefix)
 {
   rm_prefix(prefix);
+  std::string conf = traj_config(c);
   vproxy *px = new vproxy(2);
   place(*px, VALS[c.word[0]]);
-  px->set_prefixes(prefix);
-  int rc = px->config(traj_config(c));
+  px->set_prefixes(prefix + "a");
+  int rc = px->config(conf);
   if (rc != 0) { fprintf(stderr, "HARNESS-ERROR: traj config rejected: %s\n", px->errtxt.c_str()); exit(2); }
   std::vector<StepRec> recs;
-  colvar *d = px->cv("d"), *dv = px->cv("dv");
-  colvarbias *h = px->bias("h"), *hv = px->bias("hv");
   int run = 0;
   long L = c.word.size();
   std::vector<long> esteps;  // engine step of each call
@@ -125,15 +143,40 @@ static void check_traj_case(TrajCase const &c, Result &r, std::string const &pre
     if (c.split > 0 && s == c.split) esteps.push_back(s);  // repeated step: new run
   }
   long prev = -1;
+  bool have_e = false;
+  std::vector<std::string> files = {prefix + "a.colvars.traj"};
+  std::vector<std::string> texts;
   for (size_t k = 0; k < esteps.size(); k++) {
     long s = esteps[k];
-    if (s == prev) { px->end_run(); run++; }
+    if (s == prev) {
+      px->end_run();
+      run++;
+      if (c.restart) {
+        std::string st = px->state_text();
+        texts.push_back(slurp(files.back()));
+        delete px;
+        px = new vproxy(2);
+        place(*px, VALS[c.word[s]]);
+        px->set_prefixes(prefix + "b");
+        files.push_back(prefix + "b.colvars.traj");
+        std::string conf2 = conf + (have_e ? E_CONF : "");
+        if (px->config(conf2) != 0) { fprintf(stderr, "HARNESS-ERROR: traj config rejected at restart: %s\n", px->errtxt.c_str()); exit(2); }
+        px->queue_state_text(st);
+      }
+    }
+    if (c.addcv > 0 && s == c.addcv && !have_e && s != prev) {
+      if (px->config(E_CONF) != 0) { fprintf(stderr, "HARNESS-ERROR: adding variable e rejected: %s\n", px->errtxt.c_str()); exit(2); }
+      have_e = true;
+    }
     place(*px, VALS[c.word[s]]);
     px->fsys[0] = cvm::rvector(0.3 * (s + 1), 0, 0);
     px->fsys[1] = cvm::rvector(-0.7, 0.1 * s, 0);
     rc = px->step(s);
     if (rc != 0) { fprintf(stderr, "HARNESS-ERROR: traj step error: %s\n", px->errtxt.c_str()); exit(2); }
+    if (cvm::step_absolute() != s) { fprintf(stderr, "HARNESS-ERROR: step number %ld != %ld\n", (long) cvm::step_absolute(), s); exit(2); }
     r.count("transitions");
+    colvar *d = px->cv("d"), *dv = px->cv("dv");
+    colvarbias *h = px->bias("h"), *hv = px->bias("hv"), *w = px->bias("w");
     StepRec q;
     q.step = cvm::step_absolute();
     q.run = run;
@@ -145,8 +188,12 @@ static void check_traj_case(TrajCase const &c, Result &r, std::string const &pre
     q.col["fa_dv"] = nums_of(dv->applied_force());
     q.col["E_h"] = {h->bias_energy};
     q.col["E_hv"] = {hv->bias_energy};
+    q.col["E_w"] = {w->bias_energy};
     q.col["x0_d"] = nums_of(dynamic_cast<colvarbias_restraint_centers *>(h)->colvar_centers[0]);
     q.col["W_h"] = {dynamic_cast<colvarbias_restraint_moving *>(h)->acc_work};
+    q.col["W_w"] = {dynamic_cast<colvarbias_restraint_moving *>(w)->acc_work};
+    if (have_e) q.col["e"] = nums_of(px->cv("e")->x_reported);
+    q.have_e = have_e;
     // independent record: the value dictated by the simulator
     double dval = dist_of(VALS[c.word[s]]);
     if (std::fabs(q.col["d"][0] - dval) > 1e-12 * dval) {
@@ -156,76 +203,60 @@ static void check_traj_case(TrajCase const &c, Result &r, std::string const &pre
     prev = s;
   }
   px->end_run();
-  std::string text = slurp(prefix + ".colvars.traj");
+  texts.push_back(slurp(files.back()));
   delete px;
 
-  // ---- parse ----
-  std::vector<std::string> labels;
-  std::istringstream is(text);
-  std::string line;
-  struct Line { long step; std::map<std::string, std::vector<double>> col; };
+  // ---- parse (all files in order; every file must announce its columns before its first data line) ----
+  struct Line { long step; std::map<std::string, std::vector<double>> col; std::set<std::string> announced; };
   std::vector<Line> lines;
-  bool bad = false;
-  while (std::getline(is, line)) {
-    std::vector<std::string> t = split_ws(line);
-    if (t.empty()) continue;
-    if (t[0] == "#") {
-      if (t.size() < 2 || t[1] != "step") { r.violation("C19:traj:label-line-malformed", c.json()); bad = true; break; }
-      labels.assign(t.begin() + 2, t.end());
-      continue;
-    }
-    if (labels.empty() && lines.empty() && t[0][0] == '#') continue;
-    Line ln;
-    size_t p = 0;
-    ln.step = atol(t[p++].c_str());
-    bool ok = true;
-    for (auto &lab : labels) {
-      size_t n = 1;
-      bool vec = (lab == "dv" || lab == "fa_dv");
-      if (vec) n = 3;
-      std::vector<double> v;
-      if (vec) {
-        // "( a , b , c )"
-        if (p + 7 > t.size() || t[p] != "(" || t[p + 2] != "," || t[p + 4] != "," || t[p + 6] != ")") { ok = false; break; }
-        v = {atof(t[p + 1].c_str()), atof(t[p + 3].c_str()), atof(t[p + 5].c_str())};
-        p += 7;
-      } else {
-        if (p + 1 > t.size()) { ok = false; break; }
-        char *end = NULL;
-        double x = strtod(t[p].c_str(), &end);
-        if (*end != 0) { ok = false; break; }
-        v = {x};
-        p += 1;
+  std::string alltext;
+  for (auto &text : texts) {
+    alltext += text;
+    std::vector<std::string> labels;
+    bool have_labels = false;
+    std::istringstream is(text);
+    std::string line;
+    while (std::getline(is, line)) {
+      std::vector<std::string> t = split_ws(line);
+      if (t.empty()) continue;
+      if (t[0] == "#") {
+        if (t.size() < 2 || t[1] != "step") { r.violation("C19:traj:label-line-malformed", c.json()); return; }
+        labels.assign(t.begin() + 2, t.end());
+        have_labels = true;
+        continue;
       }
-      if (ln.col.count(lab)) { ok = false; break; }  // duplicate label
-      ln.col[lab] = v;
+      if (!have_labels) { r.violation("C19:traj:data-line-without-preceding-label-line", c.json()); return; }
+      Line ln;
+      size_t p = 0;
+      ln.step = atol(t[p++].c_str());
+      bool ok = true;
+      for (auto &lab : labels) {
+        bool vec = (lab == "dv" || lab == "fa_dv");
+        std::vector<double> v;
+        if (vec) {
+          // "( a , b , c )"
+          if (p + 7 > t.size() || t[p] != "(" || t[p + 2] != "," || t[p + 4] != "," || t[p + 6] != ")") { ok = false; break; }
+          v = {atof(t[p + 1].c_str()), atof(t[p + 3].c_str()), atof(t[p + 5].c_str())};
+          p += 7;
+        } else {
+          if (p + 1 > t.size()) { ok = false; break; }
+          char *end = NULL;
+          double x = strtod(t[p].c_str(), &end);
+          if (*end != 0) { ok = false; break; }
+          v = {x};
+          p += 1;
+        }
+        if (ln.col.count(lab)) { ok = false; break; }  // duplicate label
+        ln.col[lab] = v;
+        ln.announced.insert(lab);
+      }
+      if (!ok || p != t.size()) {
+        r.violation("C19:traj:columns-do-not-match-label-line",
+                    c.json().substr(0, c.json().size() - 1) + ",\"line\":\"" + jesc(line.substr(0, 300)) + "\"}");
+        return;
+      }
+      lines.push_back(ln);
     }
-    if (!ok || p != t.size()) {
-      r.violation("C19:traj:columns-do-not-match-label-line", c.json());
-      bad = true;
-      break;
-    }
-    lines.push_back(ln);
-  }
-  if (bad) return;
-
-  // ---- expected labels ----
-  std::vector<std::string> exp_labels;
-  if (c.flags & 1) exp_labels.push_back("d");
-  if (c.flags & 2) exp_labels.push_back("v_d");
-  if (c.flags & 8) exp_labels.push_back("ft_d");
-  if (c.flags & 4) exp_labels.push_back("fa_d");
-  exp_labels.push_back("dv");
-  exp_labels.push_back("fa_dv");
-  if (c.flags & 16) exp_labels.push_back("E_h");
-  if (c.flags & 32) exp_labels.push_back("x0_d");
-  if (c.flags & 64) exp_labels.push_back("W_h");
-  exp_labels.push_back("E_hv");
-  // the set of announced columns must be exactly the set requested by the flags
-  {
-    std::set<std::string> a(labels.begin(), labels.end()), b(exp_labels.begin(), exp_labels.end());
-    if (a != b) r.violation("C19:traj:announced-columns-differ-from-requested-outputs",
-                            c.json().substr(0, c.json().size() - 1) + ",\"file\":\"" + jesc(text.substr(0, 3000)) + "\"}");
   }
 
   // ---- one line per multiple of freq within each run, carrying that step, with the recorded numbers ----
@@ -233,11 +264,26 @@ static void check_traj_case(TrajCase const &c, Result &r, std::string const &pre
   for (auto &q : recs) if (q.step % c.freq == 0) expect.push_back(&q);
   if (expect.size() != lines.size()) {
     r.violation(lines.size() > expect.size() ? "C19:traj:extra-lines" : "C19:traj:missing-lines",
-                c.json().substr(0, c.json().size() - 1) + ",\"file\":\"" + jesc(text.substr(0, 3000)) + "\"}");
+                c.json().substr(0, c.json().size() - 1) + ",\"file\":\"" + jesc(alltext.substr(0, 3000)) + "\"}");
     return;
   }
   for (size_t i = 0; i < lines.size(); i++) {
     if (lines[i].step != expect[i]->step) { r.violation("C19:traj:wrong-step-number", c.json()); return; }
+    // the announced columns must be exactly the outputs requested at that step
+    std::set<std::string> want = {"dv", "fa_dv", "E_hv", "E_w", "W_w"};
+    if (c.flags & 1) want.insert("d");
+    if (c.flags & 2) want.insert("v_d");
+    if (c.flags & 8) want.insert("ft_d");
+    if (c.flags & 4) want.insert("fa_d");
+    if (c.flags & 16) want.insert("E_h");
+    if (c.flags & 32) want.insert("x0_d");
+    if (c.flags & 64) want.insert("W_h");
+    if (expect[i]->have_e) want.insert("e");
+    if (lines[i].announced != want) {
+      r.violation("C19:traj:announced-columns-differ-from-requested-outputs",
+                  c.json().substr(0, c.json().size() - 1) + ",\"step\":" + std::to_string(lines[i].step) + "}");
+      return;
+    }
     for (auto &kv : lines[i].col) {
       auto it = expect[i]->col.find(kv.first);
       if (it == expect[i]->col.end()) { r.violation("C19:traj:unknown-column:" + kv.first, c.json()); continue; }
@@ -249,6 +295,20 @@ static void check_traj_case(TrajCase const &c, Result &r, std::string const &pre
                           ",\"internal\":" + num(b) + "}");
       }
       r.count("numbers_compared", kv.second.size());
+    }
+    // textbook energy and accumulated work of the walls bias, from the dictated values alone
+    {
+      long s = lines[i].step;
+      double e = w_k(s) * w_dudk(dist_of(VALS[c.word[s]]));
+      double W = 0;
+      for (long t = 1; t <= s; t++) W += w_dudk(dist_of(VALS[c.word[t]])) * (w_k(t) - w_k(t - 1));
+      double ew = lines[i].col["E_w"][0], ww = lines[i].col["W_w"][0];
+      if (!close_rel(ew, e, std::max(1.0, e), 1e-11, 1e-12))
+        r.violation("C19:traj:bias-energy-differs-from-closed-form",
+                    c.json().substr(0, c.json().size() - 1) + ",\"step\":" + std::to_string(s) + ",\"written\":" + num(ew) + ",\"expected\":" + num(e) + "}");
+      if (!close_rel(ww, W, std::max(1.0, W), 1e-11, 1e-12))
+        r.violation("C19:traj:accumulated-work-differs-from-sum-of-dU/dk-times-increment",
+                    c.json().substr(0, c.json().size() - 1) + ",\"step\":" + std::to_string(s) + ",\"written\":" + num(ww) + ",\"expected\":" + num(W) + "}");
     }
   }
   // textbook velocity: finite difference of the dictated values (dt = 1), defined from the second step of a run on
@@ -264,7 +324,7 @@ static void check_traj_case(TrajCase const &c, Result &r, std::string const &pre
                         ",\"expected\":" + num(vref) + "}");
     }
   }
-  r.seen("states", fnv(text));
+  r.seen("states", fnv(alltext));
   r.seen("nontrivial", fnv(c.json()));
 }
 
@@ -443,18 +503,22 @@ int main(int argc, char **argv)
     for (int flags = 0; flags < 128; flags++)
       for (int freq = 1; freq <= 3; freq++)
         for (int split = 0; split < Ltraj; split++)
-          for (long w = 0; w < nwords; w++) {
-            // quick tier: all flag subsets x freq x split on 9 words; all words on 6 flag subsets
-            std::vector<int> word(Ltraj);
-            long q = w;
-            for (int i = 0; i < Ltraj; i++) { word[i] = q % nv_traj; q /= nv_traj; }
-            if (!thorough) {
-              bool word_sel = (w % 9 == 4);
-              bool flag_sel = (flags == 0 || flags == 127 || flags == 0x55 || flags == 0x2a || flags == 7 || flags == 0x78);
-              if (!word_sel && !flag_sel) continue;
-            }
-            tc.push_back(TrajCase{flags, freq, split, word});
-          }
+          for (int restart = 0; restart <= (split ? 1 : 0); restart++)
+            for (int addcv = 0; addcv < Ltraj; addcv++)
+              for (long w = 0; w < nwords; w++) {
+                // quick tier: all flag subsets x freq x segmentation x definition point on 1 word in 9; all words on 6 flag subsets
+                // with a reduced segmentation/definition menu
+                std::vector<int> word(Ltraj);
+                long q = w;
+                for (int i = 0; i < Ltraj; i++) { word[i] = q % nv_traj; q /= nv_traj; }
+                if (!thorough) {
+                  bool word_sel = (w % 27 == 13);
+                  bool flag_sel = (flags == 0 || flags == 127 || flags == 0x55 || flags == 0x2a || flags == 7 || flags == 0x78);
+                  bool small_menu = (addcv == 0 || addcv == 1 || addcv == Ltraj - 1) && (split == 0 || split == 2);
+                  if (!(word_sel || (flag_sel && small_menu && (w % 3 == 1)))) continue;
+                }
+                tc.push_back(TrajCase{flags, freq, split, restart, addcv, word});
+              }
   }
   std::vector<RA> ras = {{2, 1}, {3, 1}, {3, 2}, {2, 2}};
   std::vector<ACF> acfs;
